@@ -369,3 +369,28 @@ func Known(key string) bool {
 
 // Quiet raises pd's global log level to error so that shard logs stay small.
 func Quiet() { pdlog.SetLevel(zapcore.ErrorLevel) }
+
+// Uni draws an integer in [0,n) uniformly from fair bits. rapid's integer and
+// SampledFrom generators are deliberately biased towards small values / early
+// elements, which skews weighted choices of operation kinds; shrinking still works
+// (all-false bits = 0 = the first alternative).
+func Uni(t *rapid.T, n int, label string) int {
+	if n <= 1 {
+		return 0
+	}
+	for {
+		v := 0
+		for b := 1; b < n; b <<= 1 {
+			v <<= 1
+			if rapid.Bool().Draw(t, label) {
+				v |= 1
+			}
+		}
+		if v < n {
+			return v
+		}
+	}
+}
+
+// PickU picks an element uniformly.
+func PickU[T any](t *rapid.T, xs []T, label string) T { return xs[Uni(t, len(xs), label)] }
